@@ -103,3 +103,24 @@ Lemma lost_read_beyond_is_identity :
   run_lost_read 4 ra_op (world_of ra_prefix)
   = run_store_op "rel" "default" (mkOp ra_op (mkSF None None) (mkCF None None false)) (world_of ra_prefix).
 Proof. vm_compute. reflexivity. Qed.
+
+(* Known finding K14 — the one place where the Go code itself takes a failed read for an empty
+   answer: Install.availableName (and replaceRelease) return nil on ANY error of Releases.History.
+   So here [lose_read] IS the behaviour of the unchanged code: 2:superseded 3:deployed (revision 1
+   pruned by a history limit); install with its name check (read 0) lost: revision 1 is created
+   next to the history and deployed — a new revision BELOW the highest one, two deployed *)
+Definition fl_max2 : flags := mkFlags false false false false 2 false false false false 0.
+Definition nc_prefix : list hstep :=
+  [ clean (OpInstall fl0 1 1 [cmr "a" "v1"] []);
+    clean (OpUpgrade fl0 2 2 [cmr "a" "v2"] []);
+    clean (OpUpgrade fl_max2 3 3 [cmr "a" "v3"] []) ].
+Definition nc_op : op := OpInstall fl0 4 4 [cmr "a" "v4"] [].
+
+Lemma lost_name_check_refuted :
+  statuses (w_led (world_of nc_prefix)) = [(2, SSuperseded); (3, SDeployed)] /\
+  (* answered truthfully: the name is in use *)
+  (let '(w, out, _) := run_store_op "rel" "default" (mkOp nc_op (mkSF None None) (mkCF None None false)) (world_of nc_prefix) in
+   out = OErr ENameInUse /\ statuses (w_led w) = [(2, SSuperseded); (3, SDeployed)]) /\
+  (let '(w, out, _) := run_lost_read 0 nc_op (world_of nc_prefix) in
+   out = OOk /\ statuses (w_led w) = [(1, SDeployed); (2, SSuperseded); (3, SDeployed)]).
+Proof. vm_compute. repeat split. Qed.
